@@ -47,6 +47,8 @@ func init() {
 	// ERRS: discovery run of the error-looked-at rule over every server package
 	register("ERRS", func(c *Check) {
 		c.Rule("E1", "error looked at (discovery)", 0)
+		c.Rule("E2", "failure not treated as success (discovery)", 0)
+		c.Rule("E3", "nil error not reported (discovery)", 0)
 		var rels []string
 		for _, pk := range c.P.ServerPkgs() {
 			rels = append(rels, strings.TrimPrefix(strings.TrimPrefix(pk.PkgPath, modPath), "/"))
